@@ -65,20 +65,24 @@ def evaluate(pid, tier, rules, crates, th, silent=False):
     applied = None
     if ck.violations() and not os.environ.get("VT_NO_NORMALISE"):
         try:
-            # two normalised readings: with and without turning guard clauses into nested if/else (rules written against guard
-            # clauses read the first, rules written against nested branches the second)
-            for guard in (False, True):
+            # four normalised readings: with / without turning guard clauses into nested if/else (rules written against guard clauses
+            # read one, rules written against nested branches the other), with / without putting helper functions back into their
+            # callers (rules that name a helper read one, rules that follow the data through it the other)
+            for guard, inline in ((False, False), (True, False), (False, True), (True, True)):
                 if not ck.violations():
                     break
-                crates_n, app = normalize.normalise_program(crates, guard=guard)
+                crates_n, app = normalize.normalise_program(crates, guard=guard, inline=inline)
                 if not app:
                     continue
                 applied = dict(applied or {}, **app)
                 ckn = Check(pid, tier, silent=True)
                 rules(ckn, ir.Program(crates_n, th))
                 nk = {v["key"] for v in ckn.violations()}
+                okk = {o["key"] for o in ckn.obligations if o["status"] == "ok"}
                 for o in ck.obligations:
-                    if o["status"] == "violation" and o["key"] not in nk:
+                    # discharged only if the same obligation was evaluated on the normalised reading and held there (an obligation that
+                    # is merely absent, e.g. because an anchor was not found in that reading, discharges nothing)
+                    if o["status"] == "violation" and o["key"] not in nk and o["key"] in okk:
                         o["status"] = "ok"
                         o["what"] = "[holds on the normalised reading of the program; first reading said: %s]" % o["what"]
                         o["normalised"] = True
@@ -279,6 +283,16 @@ def run(pid, rules, mutants=None, *, level="other", explanation="", not_decided=
                     fired = [v["key"] for v in c2.violations() if v["key"] not in base_keys]
                 except Exception as e:  # a crashed rule on a mutant counts as fired (fail closed)
                     fired = ["exception:" + type(e).__name__]
+            if fired and not fired[0].startswith("exception:"):
+                # the mutant must also survive the normalised readings (what `evaluate` reports is what counts)
+                try:
+                    old_b = P.fn(q)
+                    crates_m = {key: dict(d, bodies=[(ctx.new if b_ is old_b else b_) for b_ in d["bodies"]]) for key, d in crates.items()}
+                    c3, _, _ = evaluate(pid, tier, rules, crates_m, th, silent=True)
+                    fired = [v["key"] for v in c3.violations() if v["key"] not in base_keys]
+                except Exception as e:
+                    fired = ["exception:" + type(e).__name__]
+                ir.Program(crates, th)      # restore the module-level constant table of the unmutated program
             st.append({"mutant": name, "result": "fired" if fired else "MISSED", "keys": fired[:3]})
     missed = [s for s in st if s["result"] == "MISSED"]
 
